@@ -132,7 +132,7 @@ class Evolver:
         kind = r.choice(["reorder_fields", "remove_field", "add_field_default", "add_field_nodefault", "rename_field_alias",
                          "rename_type_alias", "change_namespace", "promote", "demote", "enum_drop", "enum_add", "enum_reorder",
                          "fixed_size", "move_definition", "change_kind", "wrap_union", "unwrap_union", "union_reorder", "union_drop", "union_add",
-                         "promote", "remove_field", "reorder_fields", "wrap_union"])
+                         "promote", "remove_field", "reorder_fields", "wrap_union", "define_earlier", "add_field_union_ref"])
         recs = [(p, n, ns, d) for p, n, ns, d in pos if isinstance(n, dict) and n.get("type") == "record"]
         if kind in ("reorder_fields", "move_definition") and recs:
             p, n, ns, d = recs[0]
@@ -170,6 +170,38 @@ class Evolver:
             n.setdefault("fields", []).insert(r.randint(0, len(n.get("fields", []))), f)
             self.steps.append(kind)
             return js
+        if kind in ("define_earlier", "add_field_union_ref") and recs:
+            cands = []
+            for p, n, ns, d in recs:
+                space = split_name(n, ns)[0]
+                for i, f in enumerate(n.get("fields", [])):
+                    t = f["type"]
+                    if isinstance(t, dict) and t.get("type") in ("record", "enum", "fixed"):
+                        full = split_name(t, space)[1]
+                        if "." in full or not space:
+                            cands.append((n, i, f, full))
+            if cands:
+                n, i, f, full = r.choice(cands)
+                t = f["type"]
+                if kind == "define_earlier":
+                    # the reader defines the type in a new field in front and, where the writer
+                    # has the definition, refers to it by name from inside a union
+                    newf = {"name": "earlier_" + f["name"], "type": ["null", t], "default": None}
+                    f["type"] = r.choice([["null", full], [full, "null"], ["string", full], [full]])
+                    f.pop("default", None)
+                    n["fields"].insert(r.randint(0, i), newf)
+                else:
+                    # a reader-only union whose default is meant for a branch behind a by-name
+                    # branch that cannot hold it
+                    ftype, dflt = {"record": ([full, "bytes"], "\u0000\u00ff"),
+                                   "enum": (["null", full, {"type": "map", "values": "bytes"}], {"sig": "\u00fe\u0001"}),
+                                   "fixed": ([full, {"type": "array", "items": "bytes"}], ["\u00ff", ""])}[t["type"]]
+                    newf = {"name": "added_union_" + f["name"], "type": ftype, "default": dflt}
+                    if any(x["name"] == newf["name"] for x in n["fields"]):
+                        return js
+                    n["fields"].insert(r.randint(i + 1, len(n["fields"])), newf)
+                self.steps.append(kind)
+                return js
         if kind == "rename_field_alias" and recs:
             cands = [x for x in recs if x[1].get("fields")]
             if cands:
